@@ -35,7 +35,10 @@ class C20(Prop):
             shape_kind = rng.choice(["scalar", "1d", "2d", "3d", "2d-axis", "3d-axis"])
             nl = rng.randint(1, 7)
             arb = rng.random() < 0.3
+            ints = (not arb) and rng.random() < 0.2      # whole-number spectra (photon counts, 8/16-bit images) handed over with an integer dtype
             def val():
+                if ints:
+                    return float(rng.randint(0, 255))
                 return rng.uniform(0.001, 50.0) if arb else dyad(rng, 0, 64, 16)
             def wl():
                 return rng.uniform(100.0, 2000.0) if arb else float(rng.randint(100 * 4, 2000 * 4)) / 4
@@ -59,13 +62,15 @@ class C20(Prop):
                 arr = np.array([val() for _ in range(int(np.prod(shp)))]).reshape(shp).tolist()
                 lam = [wl() for _ in range(nl)] if (axis is not None or rng.random() < 0.8) else wl()
             cases.append({"flux": flux, "prefix": prefix, "arr": arr, "lam": lam, "axis": axis,
-                          "units": units, "kind": "%s/%s/%s" % (shape_kind, units, "arb" if arb else "dyadic")})
+                          "units": units, "ints": ints, "kind": "%s/%s/%s" % (shape_kind, units, "arb" if arb else ("int" if ints else "dyadic"))})
         return cases
 
     def run_impl(self, case):
         import dreye
         ureg = dreye.ureg
         arr = np.asarray(case["arr"], dtype=float)
+        if case.get("ints"):
+            arr = arr.astype(np.int64)
         lam = np.asarray(case["lam"], dtype=float) if isinstance(case["lam"], list) else float(case["lam"])
         fn = dreye.flux2irr if case["flux"] else dreye.irr2flux
         a_in, l_in = arr, lam
